@@ -170,7 +170,7 @@ def extconst_post(a, n, direction, result):
 
 # ------------------------------------------------------------------ integration rules
 
-contract(RECT, params=dict(x=Seq(Real, kind='arraylike'), y=Seq(Real, kind='arraylike')), returns=Seq(Real))
+contract(RECT, params=dict(x=Seq(Real, kind='arraylike'), y=Seq(Real, kind='arraylike')), returns=Seq(Real), inline=True)
 
 
 @requires(RECT)
@@ -184,7 +184,7 @@ def rect_post(x, y, result):
             and forall(range(len(x) - 1), lambda i: eq(result[i], y[i] * (x[i + 1] - x[i]))))
 
 
-contract(TRAP, params=dict(x=Seq(Real, kind='arraylike'), y=Seq(Real, kind='ndarray')), returns=Seq(Real))
+contract(TRAP, params=dict(x=Seq(Real, kind='arraylike'), y=Seq(Real, kind='ndarray')), returns=Seq(Real), inline=True)
 
 
 @requires(TRAP)
@@ -198,7 +198,7 @@ def trap_post(x, y, result):
             and forall(range(len(x) - 1), lambda i: eq(result[i], (y[i] + y[i + 1]) / 2 * (x[i + 1] - x[i]))))
 
 
-contract(INTEGRAL, params=dict(x=Seq(Real, kind='arraylike'), y=Seq(Real, kind='ndarray'), method=Str), returns=Seq(Real))
+contract(INTEGRAL, params=dict(x=Seq(Real, kind='arraylike'), y=Seq(Real, kind='ndarray'), method=Str), returns=Seq(Real), inline=True)
 
 
 @requires(INTEGRAL)
